@@ -307,7 +307,7 @@ func shutdownScenarios(c *Ctx) {
 		rounds = 20
 	}
 	for it := 0; it < rounds; it++ {
-		for _, kind := range []string{"request", "validate", "membership", "membership-then-sync"} {
+		for _, kind := range []string{"request", "validate", "membership", "membership-then-sync", "flood-then-sync"} {
 			w := NewWorld(100)
 			var members []interfaces.CommitteeMember
 			for i := 0; i < 4; i++ {
@@ -372,7 +372,41 @@ func shutdownScenarios(c *Ctx) {
 				ml.HandleConsensusMessage(tctx, a.mkPP(memberId(0), 100, 1, 0, b))
 				tc()
 			}
-			if strings.HasPrefix(kind, "membership") {
+			if kind == "flood-then-sync" {
+				// C12 / C14: while the worker sits in a context-bound SPI call, more messages arrive than its inbox holds;
+				// the main loop must keep reading its channels: the API must not block and a node sync must still take effect
+				select {
+				case <-inSpi:
+				case <-time.After(2 * time.Second):
+				}
+				blocked := 0
+				for k := 0; k < 1300 && blocked == 0; k++ {
+					tctx, tc := context.WithTimeout(ctx, 500*time.Millisecond)
+					ml.HandleConsensusMessage(tctx, mkBareRaw(1+k%2, 100, 1, 0, memberId(1+k%3)))
+					if tctx.Err() != nil {
+						blocked = k + 1
+					}
+					tc()
+				}
+				if blocked > 0 {
+					c.Violation("C12", "mainloop-stopped-reading", fmt.Sprintf("HandleConsensusMessage blocked at message %d of a burst sent while the worker was inside RequestNewBlockProposal", blocked), "shutdown-scenario "+kind)
+				}
+				tctx, tc := context.WithTimeout(ctx, 2*time.Second)
+				err := ml.UpdateState(tctx, &FakeBlock{H: 3, Id: 1}, net.syncProof(3))
+				tc()
+				if err != nil {
+					c.Violation("C14", "updatestate-blocked", fmt.Sprintf("UpdateState(3) after a burst of 1300 messages while the worker was inside RequestNewBlockProposal: %v", err), "shutdown-scenario "+kind)
+				} else {
+					ok := false
+					for k := 0; k < 400 && !ok; k++ {
+						time.Sleep(5 * time.Millisecond)
+						ok = uint64(ml.State().Height()) == 4
+					}
+					if !ok {
+						c.Violation("C14", "sync-not-effective", fmt.Sprintf("UpdateState(block 3) accepted after a message burst; two seconds later the node decides height %d", uint64(ml.State().Height())), "shutdown-scenario "+kind)
+					}
+				}
+			} else if strings.HasPrefix(kind, "membership") {
 				time.Sleep(time.Duration(5+r.Intn(30)) * time.Millisecond)
 			} else {
 				select {
